@@ -2,7 +2,8 @@
 C14 -- workbooks are opened by suffix and always release their file.
 
 Proof:           lean/Stingray/Props/C14.lean (later_registration_wins, registration_is_local, unknown_suffix_refused,
-                 exit_releases, close_idempotent, close_after_exit)
+                 registry_history + unrelated_registration_irrelevant over EVERY history of multi-suffix registrations,
+                 exit_releases, exit_releases_forever, close_idempotent, close_after_exit)
 Tie:             pinned sources of the registry and of every close()/__exit__ (Tie/C14.lean); correspondence of the registry and of
                  the life-cycle machine with the real classes
 Oracle:          FAULT ENUMERATION: for every workbook class x every point k at which the body raises (before the first sheet, in the
@@ -233,6 +234,50 @@ def explore(ck: Check, slow: bool) -> None:
         reqs.append("FAC open .dat .dat=First .csv=First .csv=Second")
         impl.append("First")
         inputs.append({"registry": "private"})
+        # ---- registration HISTORIES on private registries: any number of registrations, each naming any number of suffixes
+        # (theorem registry_history: the last registration naming the suffix decides; nobody names it -> NotImplementedError).
+        # The workbook is really opened through reg.open_workbook() on a file carrying that suffix.
+        vocab = [".aa", ".bb", ".cc", ".dd", ".ee", ".AA"]
+        classes = {n: type(n, (CSV_Workbook,), {}) for n in ("K0", "K1", "K2", "K3")}
+        for sfx in vocab + [".zz"]:
+            write_csv(tdp / f"hist{sfx}", t)
+        n_hist = 60 if slow else 12
+        for hno in range(n_hist):
+            # the first two are fixed: the empty history and one registration naming a suffix twice
+            if hno == 0:
+                hist: list[tuple[list[str], str]] = []
+            elif hno == 1:
+                hist = [([".aa", ".bb", ".aa"], "K0"), ([".bb"], "K1"), ([".cc", ".aa"], "K2"), ([".bb"], "K0")]
+            else:
+                hist = [([rng.choice(vocab) for _ in range(rng.randint(1, 3))], rng.choice(list(classes)))
+                        for _ in range(rng.randint(1, 6))]
+            reg2 = WBFileRegistry()
+            for names, cname in hist:
+                reg2.file_suffix(*names)(classes[cname])
+            regs2 = [",".join(names) + "=" + cname for names, cname in hist]
+            for sfx in vocab + [".zz"]:
+                ck.case(("reghist", tuple(regs2), sfx), feature=f"registry-history/{len(hist)}")
+                ck.oracle_evaluations += 1
+                want = "NotImplementedError"
+                for names, cname in hist:
+                    if sfx in names:
+                        want = cname
+                before_fds = fds_on(tdp / f"hist{sfx}")
+                try:
+                    with reg2.open_workbook(tdp / f"hist{sfx}") as wb2:
+                        out = type(wb2).__name__
+                except NotImplementedError:
+                    out = "NotImplementedError"
+                except BaseException as ex:  # noqa: BLE001
+                    out = err_enum(ex)
+                inp2 = {"history": regs2, "suffix": sfx}
+                if out != want:
+                    ck.fail("registration-history", f"history {regs2}: suffix {sfx} gives {out}, the last registration naming it is {want}", inp2)
+                if fds_on(tdp / f"hist{sfx}") != before_fds:
+                    ck.fail("registration-history-fd", f"history {regs2}: opening {sfx} left a descriptor on the file", inp2)
+                reqs.append(f"FAC open {sfx} " + " ".join(regs2))
+                impl.append(out)
+                inputs.append(inp2)
     model = ck.driver.run(reqs)
     ck.compare_streams("real workbook life cycle / registry vs Facade.lrun / openWorkbook", inputs, impl, model)
 
